@@ -212,7 +212,9 @@ class C03(Check):
         w = world()
         d = 4 if tier == "quick" else 5
         return [
-            SubSpace(f"multi/base+pe/d{d}", w, ("X", "L"), BASE + pe_ops(), d),
+            # thorough: also from a source with a column no operation mentions, so that every widened
+            # projection pushed into the source is a real projection
+            SubSpace(f"multi/base+pe/d{d}", w, ("X", "L") if tier == "quick" else ("X", "L", "X4"), BASE + pe_ops(), d),
             SubSpace(f"multi/shadow/d{d + 1}", w, ("X", "L"), SHADOW_BASE + SHADOW_JOINS, d + 1),
             SubSpace(f"multi/hidden-tag/d{d + 2}", w, ("X4",), HIDDEN_BASE + hidden_ops(), d + 2),
         ]
